@@ -91,7 +91,19 @@ pub fn run_full_history(spec: &FullWorldSpec, seed: u64, prop_salt: u64, index: 
             }
         }
         if !post.query_errors.is_empty() {
-            out.violation("HARNESS", "query_failed", format!("queries failed at a quiescent point: {:?}", post.query_errors));
+            out.violation(
+                "HARNESS",
+                "query_failed",
+                format!(
+                    "queries failed at a quiescent point: {:?} [reward global_index {} total_balance {} recorded {}; bSei supply {}; largest bSei balance {:?}]",
+                    post.query_errors,
+                    post.global_index,
+                    post.reward_total_balance,
+                    post.prev_reward_balance,
+                    post.bsei.supply,
+                    post.bsei.balances.iter().max_by_key(|x| *x.1)
+                ),
+            );
         }
         log.push(json!({
             "step": step, "time": w_pre.time, "op": op_json(&op),
@@ -185,7 +197,15 @@ where
                 if i >= n {
                     break;
                 }
-                let rep = f(i);
+                // a panic outside contract / monitor code is a harness defect: the history is reported as inconclusive
+                let rep = match std::panic::catch_unwind(std::panic::AssertUnwindSafe(|| f(i))) {
+                    Ok(r) => r,
+                    Err(p) => {
+                        let mut out = Out::default();
+                        out.inconclusive.push(format!("harness panic in history {}: {}", i, crate::chain::panic_text(&p)));
+                        HistoryReport { index: i, out, steps: 0, ok_steps: 0, cfg: String::new(), log: vec![], op_kinds: Default::default() }
+                    }
+                };
                 let mut a = acc.lock().unwrap();
                 a.histories += 1;
                 a.steps += rep.steps;
